@@ -21,7 +21,8 @@ PROBES = [("ahrs.utils.sensors", "Sensors.generate"), ("ahrs.utils.sensors", "Se
 REQUIRED_PROBES = ["sensors.Sensors.generate", "sensors.Sensors.angular_velocities", "sensors.random_angpos", "quaternion.QuaternionArray.angular_velocities"]
 RULE = ("cases = Sensors(num_samples=N) with N in 10..600 or Sensors(quaternions=Q) with smooth harness-generated trajectories (rate <= 2 rad/s, |pitch| kept "
         "away from gimbal lock), sampling 20..400 Hz, degrees or radians, normalised magnetometer on/off, default or custom reference vectors, each noise "
-        "level zero or non-zero (all-zero = noise-free region); the module-level random generator is re-seeded per case; non-trivial = all")
+        "level zero or non-zero (all-zero = noise-free region); the options of the random-trajectory generator (yaw, span, both, neither) on a fixed schedule; one given "
+        "trajectory in eight drifts by 1e-7..1e-5 rad/s; the module-level random generator is re-seeded per case; non-trivial = all")
 ASSUMPTIONS = ["gyr_noise is documented as 'scaled to the units of the gyroscope data': the applied sigma is gyr_noise (deg/s) x DEG2RAD for radian output",
                "re-integration is judged for trajectories turning at most 0.5 rad per sample (bounded rate); recovered angular rates are first order: per step the integrated angle is x = 2 sin(theta/2) instead of theta, so the re-integration budget is sum (2 asin(x/2) - x) + 1e-9 (exact bound, errors add at most)", "noise levels are compared with 6-sigma chi-square bounds",
                "the module-level GENERATOR of ahrs.utils.sensors is replaced by a seeded generator before every case (determinism of the check, not of the library)"]
